@@ -12,13 +12,16 @@ Proof.
     cbn [uni_walk]. rewrite Ha. apply IH. exact Hr.
 Qed.
 
-Lemma uni_ok_ascii : forall s, all_ascii s = true -> uni_ok s = true.
-Proof. intros s Hs. unfold uni_ok. apply uni_walk_ascii. exact Hs. Qed.
+Lemma uni_ok12_ascii : forall s, all_ascii s = true -> uni_ok12 s = true.
+Proof. intros s Hs. unfold uni_ok12. apply uni_walk_ascii. exact Hs. Qed.
 
 (* the circled letter of the round-7 seed is rejected; a CJK name and an accented name are accepted *)
 Example uni_ok_circled_rejected :
-  uni_ok (L "onGrade" ++ [ascii_of_nat 226; ascii_of_nat 146; ascii_of_nat 182] ++ L "Awarded") = false.
+  uni_ok12 (L "onGrade" ++ [ascii_of_nat 226; ascii_of_nat 146; ascii_of_nat 182] ++ L "Awarded") = false.
 Proof. vm_compute. reflexivity. Qed.
 Example uni_ok_cjk_accepted :
-  uni_ok (L "on" ++ [ascii_of_nat 230; ascii_of_nat 155; ascii_of_nat 180; ascii_of_nat 230; ascii_of_nat 150; ascii_of_nat 176]) = true.
+  uni_ok12 (L "on" ++ [ascii_of_nat 230; ascii_of_nat 155; ascii_of_nat 180; ascii_of_nat 230; ascii_of_nat 150; ascii_of_nat 176]) = true.
+Proof. vm_compute. reflexivity. Qed.
+(* Thai KO KAI (U+0E01), outside the table of C01Wf, inside the extended one *)
+Example uni_ok_thai_accepted : uni_ok12 (L "on" ++ [ascii_of_nat 224; ascii_of_nat 184; ascii_of_nat 129]) = true.
 Proof. vm_compute. reflexivity. Qed.
